@@ -52,6 +52,8 @@ func init() {
 			{ID: "C10.R27", Text: "who counts as live: the comparison isAlive returns, with every operand moved to one side, reads interval + tolerance + lastHeartbeat − now > 0 (linear form of the SSA expression: indifferent to operand order, mirroring and temporaries; decides the sign structure, not the timing)", Run: livenessTest},
 			{ID: "C10.R28", Text: "join order is well defined: every join time the library creates is time.Now().UnixNano() and every other store into a ClusterJoinTime field is a copy of one (a coarser reading makes members tie and swap numbers between rounds)", Run: joinTimeResolution},
 			{ID: "C10.R29", Text: "announcements are applied in the order they were made: every Publish on the membership topic is a plain synchronous call, never go/defer", Run: publishSynchronous},
+			{ID: "C10.R30", Text: "a numbering that differs from the one in effect reaches the stream whenever it is announced: the bus listener calls Stream.Rebalance on every path, also while the stream is closed or re-opening (same rule as C11.R7)", Run: c11r7},
+			{ID: "C10.R31", Text: "a numbering sent through the API reaches the membership: every route has exactly one handler, a method of the API object, and the application-wide middlewares are the metrics and pprof ones", Run: apiRoutesExact},
 			{ID: "C10.R5", Text: "Couchbase membership: lastActiveInstances is written only in the numbering step after the publish decision; on CAS mismatch the round is restarted (monitor re-entered), nothing is rewritten", Run: c10r5},
 		},
 	})
